@@ -1,6 +1,7 @@
 mod sched;
 mod model;
 mod driver;
+mod gen;
 
 use std::io::{BufRead, BufWriter, Write};
 use std::time::Duration;
@@ -43,6 +44,17 @@ fn main() {
             }
             out.flush().unwrap();
             println!("SUMMARY {}", serde_json::Value::Array(summary));
+        }
+        "gen" => {
+            let profile = arg_value(&args, "--profile").expect("--profile");
+            let seed: u64 = arg_value(&args, "--seed").map(|value| value.parse().unwrap()).unwrap_or(1);
+            let count: usize = arg_value(&args, "--count").map(|value| value.parse().unwrap()).unwrap_or(10);
+            let stdout = std::io::stdout();
+            let mut out = BufWriter::new(stdout.lock());
+            for scenario in gen::generate(&profile, seed, count) {
+                serde_json::to_writer(&mut out, &scenario).unwrap();
+                out.write_all(b"\n").unwrap();
+            }
         }
         _ => {
             eprintln!("usage: harness run --scenarios <ndjson> --out <ndjson> [--timeout-ms N]");
